@@ -259,8 +259,8 @@ func init() {
 	}, propMeta{Technique: "must-pass-through over the SSA CFG + kind-constant exhaustiveness", LevelText: "all acquire sites in the block evaluator are enumerated and decided.", LevelNote: "error-return paths of the acquire itself are exempt", DesignRef: "4 PAIR; 5 C17"})
 
 	claim("C18", PropertySpec{
-		Engines: []EngineSpec{rules("ORD", "ORD-load", "ORD-prov"), rules("ED", "ED-1"), all("GEN"), rules("RS", "RS-def")},
-		Clause: "Nothing is printed while a preload file is analysed (every printing call of the analysis loop is dominated by the false edge of the load flag), diagnostics have a single writer, the file name and the row of every record come from the same object, and the counter of every fresh-name generator is only ever advanced from its own value (names handed out while a preload file is analysed stay in the tables, so a per-file reset makes preloads and target collide where a concatenation cannot); and the type a definition records never depends on what was evaluated before it: in the `def` evaluator every read of the parser's last evaluated value is preceded, on every path from the evaluator's entry, by a definite write made by the evaluator itself (RS-def) — otherwise the first definition of the target file sees the last statement of the preceding file only when files are concatenated.",
+		Engines: []EngineSpec{rules("ORD", "ORD-load", "ORD-prov", "ORD-own"), rules("ED", "ED-1"), all("GEN"), rules("RS", "RS-def")},
+		Clause: "Nothing is printed while a preload file is analysed (every printing call of the analysis loop is dominated by the false edge of the load flag), diagnostics have a single writer, the file name and the row of every record come from the same object, only records made for the target file are collected into its hint list and the parser of a preloaded file never carries the requested row (ORD-own), and the counter of every fresh-name generator is only ever advanced from its own value (names handed out while a preload file is analysed stay in the tables, so a per-file reset makes preloads and target collide where a concatenation cannot); and the type a definition records never depends on what was evaluated before it: in the `def` evaluator every read of the parser's last evaluated value is preceded, on every path from the evaluator's entry, by a definite write made by the evaluator itself (RS-def) — otherwise the first definition of the target file sees the last statement of the preceding file only when files are concatenated.",
 		NotCovered: "equality with the concatenated run",
 	}, propMeta{Technique: "dominance over the SSA CFG of the analysis loop with call-graph print summaries + provenance (root object) comparison of record components", LevelText: "all printing calls of the loop and all file+row record assemblies are enumerated and decided.", LevelNote: "file-name fields are anchored by name (FileName); integer row parameters are followed to their call sites", DesignRef: "4 ORD-load, ORD-prov; 5 C18"})
 
